@@ -498,6 +498,51 @@ class CompGen:
       return self.c.choice(["connect", "//="])
     return "connect"
 
+  def gen_accum_loop(self, path, t):
+    """whole Bits target accumulated over a counted loop; the loop variable is used as a value
+    (shift amount, BitsN(i) cast, temporary), ascending or descending with a non-negative stop."""
+    c = self.c
+    if not isinstance(t, int) or t < 2 or t > 32:
+      return None
+    same = [a for a in self.atoms if isinstance(a.t, int) and a.w == t]
+    if not same:
+      return None
+    a = c.choice(same)
+    n = c.randint(2, min(6, t))
+    lo = c.randint(0, 2)
+    hi = lo + n
+    if hi > (1 << t) - 1 or hi >= t + 2:
+      hi = min((1 << t) - 1, t)
+      lo = max(0, hi - n)
+    if hi <= lo:
+      return None
+    if c.random() < 0.5:
+      rng_ = [hi, lo, -1]          # hi, hi-1, ..., lo+1
+    else:
+      rng_ = [lo, hi, 1]
+    acc = ["rd", path, t]
+    kind = c.choice(["shift", "shift", "cast", "tmp"])
+    cw = max(1, hi.bit_length())
+    if kind == "shift":
+      term = ["shift", c.choice(["shr", "shl"]), ["rd", a.path, t], ["lv", "i"]]
+      body = [["assign", path, ["bin", c.choice(["xor", "add", "or"]), acc, term]]]
+    elif kind == "cast":
+      if cw > t:
+        return None
+      term = ["cast", t, ["lv", "i"]]
+      body = [["assign", path, ["bin", c.choice(["add", "xor"]), acc, ["bin", "and", ["rd", a.path, t], term]]]]
+    else:
+      name = "t%d" % self.ntmp
+      self.ntmp += 1
+      if cw > t:
+        return None
+      body = [["tmp", name, ["cast", t, ["lv", "i"]]],
+              ["assign", path, ["bin", "add", acc, ["bin", "xor", ["tmpv", name, t], ["rd", a.path, t]]]]]
+    name = "up%d" % self.nblk
+    self.nblk += 1
+    return {"k": "comb", "name": name,
+            "stmts": [["assign", path, self.const(t)], ["for", "i", rng_[0], rng_[1], rng_[2], body]]}
+
   # ---- the main construction ------------------------------------------
   def build(self):
     c, P = self.c, self.P
@@ -589,10 +634,12 @@ class CompGen:
         if srcs and rr < 0.7:
           a = c.choice(srcs)
           # fan-out bias: reuse the previous connect source so that nets get several members
-          prev = getattr(self, "last_src", None)
-          if prev is not None and c.random() < 0.4 and any(x is prev for x in srcs):
-            a = prev
-          self.last_src = a
+          used = getattr(self, "used_srcs", [])
+          again = [x for x in srcs if any(x is u for u in used)]
+          if again and c.random() < 0.5:
+            a = c.choice(again)
+          used.append(a)
+          self.used_srcs = used
           self.items.append({"k": "connect", "a": pc["path"], "b": a.path, "flip": c.random() < 0.5,
                              "op": self.conn_op(pc)})
           made = True
@@ -624,7 +671,7 @@ class CompGen:
           self.items.append({"k": "lambda", "t": pc["path"], "e": e})
           made = True
       elif r < P["p_connect"] + P["p_lambda"] + P["p_for"] * 0.5 and pc["n"] == 1:
-        it = self.gen_for_block(pc["path"], pc["t"])
+        it = self.gen_for_block(pc["path"], pc["t"]) if c.random() < 0.5 else self.gen_accum_loop(pc["path"], pc["t"])
         if it is not None:
           self.items.append(it)
           made = True
@@ -672,7 +719,12 @@ class CompGen:
           body.append(e_st)
           continue
         r = c.random()
-        if r < 0.35:
+        if r < 0.12:
+          # default, then hold-override by self-assignment: the LAST executed assignment wins
+          me = ["rd", p, tbits(self.spec, t)] + ([t] if isinstance(t, str) else [])
+          body.append(["assign", p, e])
+          body.append(["if", self.expr(1, 2, env), [["assign", p, me]], []])
+        elif r < 0.35:
           body.append(["if", self.expr(1, 2, env), [["assign", p, e]], []])       # hold otherwise
         elif r < 0.5:
           e0 = self.value_expr(t, 1, env)
